@@ -99,6 +99,16 @@ def _structural():
                     for op in ("sw", "proj"):
                         i += 1
                         yield {"cfg": cfg, "op": op, "a": opnd(ka), "b": opnd(kb), "mode": "generic", "cse": i % 2 == 0, "symcls": None}
+    # more than 16 / 32 output coefficients with shared sub-expressions (d = 5: 20 outputs; d = 6: 35 outputs)
+    g23_5 = [k for k in range(32) if bin(k).count("1") in (2, 3)]
+    g23_6 = [k for k in range(64) if bin(k).count("1") in (2, 3)]
+    for sig5 in ([1, 1, 1, 1, 1], [1, 1, 1, -1, 0]):
+        cfg = {"sig": sig5, "start": None, "basis": None}
+        for ka, kb, op in (([1, 2, 4, 8, 16], g23_5, "sw"), ([0, 3, 5, 6, 24], g23_5, "sw"), ([1, 2, 4, 8, 16], [1, 2, 4, 8, 16] + g23_5[:10], "proj")):
+            yield {"cfg": cfg, "op": op, "a": opnd(ka), "b": opnd(kb), "mode": "generic", "cse": True, "symcls": None}
+    cfg6 = {"sig": [1, 1, 1, 1, 1, -1], "start": None, "basis": None}
+    yield {"cfg": cfg6, "op": "sw", "a": opnd([1, 2, 4, 8, 16, 32]), "b": opnd(g23_6), "mode": "generic", "cse": True, "symcls": None}
+    yield {"cfg": cfg6, "op": "sw", "a": opnd([3, 12]), "b": opnd(g23_6[::-1]), "mode": "generic", "cse": True, "symcls": None}
     canon16 = sorted(range(16), key=lambda k: (bin(k).count("1"), [j for j in range(4) if k >> j & 1]))
     for sig in ([1, 1, 1, -1], [0, 1, 1, 1]):
         cfg = {"sig": sig, "start": None, "basis": None}
